@@ -33,9 +33,6 @@ func (a Arch) String() string {
 	 * back to exactly this triple */
 	short := !strings.Contains(a.CPU, "-")
 	switch {
-	case a == Arch{}:
-		/* nothing set, nothing to say: lets Marshal omit the field */
-		return ""
 	case a.ABI == a.OS && a.OS == a.CPU && (a.CPU == "any" || a.CPU == "all"):
 		/* `any` and `all` stand for the whole triple */
 		return a.CPU
